@@ -52,7 +52,7 @@ func c18Plan(tier string) c18plan {
 	if tier == "thorough" {
 		return c18plan{64, 256, 64, 2, 10000, 10000, 20000, 1500}
 	}
-	return c18plan{64, 256, 64, 2, 100, 100, 300, 40}
+	return c18plan{64, 256, 64, 2, 400, 400, 1200, 120}
 }
 
 func (p c18plan) total() int {
